@@ -1153,3 +1153,29 @@ func specDirectWriteOK(from ast.Format, ctx ast.Context) bool {
 //@   loop 0
 //@     invariant[C16] called("emitCallFunc") == (rangeIndex(0) > 0)
 //@     invariant[C16] !em.alreadyInitializedTemplatePkgs[node.Tree.Path]
+
+// ---------------------------------------------------------------------------
+// C20: a limit exceeded while a function is built is reported through
+// newLimitExceededError(fb.fn.Pos, ...), which reads the position: every
+// function handed to a builder that may emit arbitrary code must carry one
+// (builder invariant fbOK). The synthetic "$initvars" function that holds the
+// initialisers of package variables is such a function.
+// ---------------------------------------------------------------------------
+
+//@ func newFunction
+//@   props C20
+//@   modifies nothing
+//@   opt allocates yes
+//@   ensures result != nil && (pos != nil ==> result.Pos != nil) && (pos == nil ==> result.Pos == nil)
+
+//@ func newMacro
+//@   props C20
+//@   modifies nothing
+//@   opt allocates yes
+//@   ensures result != nil && (pos != nil ==> result.Pos != nil) && (pos == nil ==> result.Pos == nil)
+
+//@ func (*emitter).emitPackage
+//@   props X00 C20
+//@   opt stable github.com/open2b/scriggo/internal/runtime.Function
+//@   panics allowed
+//@   callassert[C20] newBuilder 0 initVarsFn != nil && initVarsFn.Pos != nil
